@@ -27,27 +27,55 @@ Theorem c16_inplace_only_arg : forall m h cl, in_place cl = true ->
   forall a, a < length h -> ~ In a (own h cl) -> get (fst (run m cl h)) a = get h a.
 Proof. exact frame_inplace. Qed.
 
-(* ---- nothing is shared: in the property-satisfying model every object reachable from the result is new;
-        the set of objects a result may share with the arguments is empty *)
-(* (documented_shared cl = [] by definition: membership in it is False) *)
-Theorem c16_fresh : forall h cl, in_place cl = false ->
-  forall a, reachable (fst (run Repaired cl h)) (snd (run Repaired cl h)) a ->
-            reachable h (args_of cl) a -> In a (documented_shared cl).
-Proof. exact fresh_repaired. Qed.
+(* ---- nothing is shared, I: the code as it is (EVERY mode, in particular mode Current = the copy discipline of the tree)
+        on inputs outside the known sharing classes.  `clean h cl` (Model/Heap.v, boolean): the argument circuits hold no
+        basis-carrying instruction object (no pre-placed QPD placeholder: outside F6 / F19 and, conservatively, F11);
+        for cut_wires only native instructions and CutWire markers (outside F10); all addresses valid.
+        Then every object reachable from the result is NEW.
+        NOT covered: decompose / generate on circuits WITH placeholders whose selected maps hold only singleton gates
+        (outside F11 in the tree, but the intermediate copies reference the argument bases: needs the clean-set logic). *)
+Theorem c16_fresh_current : forall m h cl, in_place cl = false -> clean h cl = true ->
+  forall a, reachable (fst (run m cl h)) (snd (run m cl h)) a -> length h <= a.
+Proof. exact result_reach_new_clean. Qed.
 
-(* ... not with anything that existed before the call, in particular not with an EARLIER result:
-   (h1, r1) = first call, second call on the same arguments from h1 *)
-Theorem c16_fresh_between_results : forall h cl cl', in_place cl' = false ->
+Theorem c16_fresh_current_disjoint : forall m h cl roots, in_place cl = false -> clean h cl = true ->
+  forall a, reachable (fst (run m cl h)) (snd (run m cl h)) a -> reachable h roots a -> False.
+Proof.
+  intros m h cl roots NI CL a R1 R2. apply (result_reach_new_clean m h cl NI CL) in R1.
+  apply reachable_lt in R2. lia.
+Qed.
+
+(* ---- nothing is shared, II: the REPAIRED model (mode Repaired = mkMode true true true; this is NOT the code of the
+        tree, which has the known findings F6 / F10 / F11 / F19): every object reachable from a result is new,
+        whatever the input (documented_shared cl = [] by definition) *)
+Theorem c16_result_reach_new_repaired : forall h cl, in_place cl = false ->
+  forall a, reachable (fst (run Repaired cl h)) (snd (run Repaired cl h)) a -> length h <= a.
+Proof. exact result_reach_new. Qed.
+
+Theorem c16_fresh_repaired : forall h cl roots, in_place cl = false ->
+  forall a, reachable (fst (run Repaired cl h)) (snd (run Repaired cl h)) a -> reachable h roots a -> False.
+Proof. intros h cl roots NI a. exact (fresh_repaired_gen h cl roots NI a). Qed.
+
+(* ... in particular not with an EARLIER result: (h1, r1) = first call, second call from h1 *)
+Theorem c16_fresh_between_results_repaired : forall h cl cl', in_place cl' = false ->
   let h1 := fst (run Repaired cl h) in let r1 := snd (run Repaired cl h) in
   forall a, reachable (fst (run Repaired cl' h1)) (snd (run Repaired cl' h1)) a -> reachable h1 r1 a -> False.
 Proof. intros h cl cl' NI h1 r1 a. exact (fresh_repaired_gen h1 cl' r1 NI a). Qed.
 
-(* ---- destructive edits of a result (arbitrary overwrites of objects reachable from it) leave every older object
-        - arguments, earlier results - as it was; later calls therefore start from the same argument objects *)
-Theorem c16_edits_leave_inputs : forall h cl, in_place cl = false ->
+(* ---- destructive edits of a result.  An edit list overwrites EXISTING objects at addresses that were reachable from
+        the result when it was returned (no allocation, no chain through a reference planted by an earlier edit).
+        Repaired model: every older object - arguments, earlier results - stays as it was. *)
+Theorem c16_edits_leave_inputs_repaired : forall h cl, in_place cl = false ->
   forall es, (forall e, In e es -> reachable (fst (run Repaired cl h)) (snd (run Repaired cl h)) (fst e)) ->
   forall a, a < length h -> get (apply_edits (fst (run Repaired cl h)) es) a = get h a.
 Proof. exact edits_leave_old. Qed.
+
+(*      EVERY mode (the code as it is): such edits can only hit new objects or objects that were reachable from the
+        arguments of that call; every other old object stays as it was *)
+Theorem c16_edits_confined : forall m h cl, in_place cl = false ->
+  forall es, (forall e, In e es -> reachable (fst (run m cl h)) (snd (run m cl h)) (fst e)) ->
+  forall a, a < length h -> ~ reachable h (args_of cl) a -> get (apply_edits (fst (run m cl h)) es) a = get h a.
+Proof. exact edits_confined. Qed.
 
 (* ---- upper bound for EVERY mode, in particular for the model of the current tree (mode Current): whatever is reachable
         from a result is a new object or was reachable from the arguments of that call.  No other pre-existing object
@@ -70,7 +98,7 @@ Proof. exact results_share_only_arguments. Qed.
    PARTIAL with respect to "the outcome of later calls is unchanged": the missing part is that `run` depends only on
    the object graph of its arguments up to the addresses of the new objects (a renaming argument), which is not
    proved here; the implementation side is checked on every case (third call, and calls on brand-new inputs). *)
-Theorem c16_later_calls_partial : forall h cl, in_place cl = false -> wf h ->
+Theorem c16_later_calls_repaired_partial : forall h cl, in_place cl = false -> wf h ->
   (forall r, In r (args_of cl) -> r < length h) ->
   forall es, (forall e, In e es -> reachable (fst (run Repaired cl h)) (snd (run Repaired cl h)) (fst e)) ->
   let h2 := apply_edits (fst (run Repaired cl h)) es in
@@ -149,6 +177,59 @@ Example c16_ex_confined :
           (filter (fun a => a <? length f6_heap) (reach (fst (run Current f6_call f6_heap)) (snd (run Current f6_call f6_heap)))) = true.
 Proof. split; [vm_compute; discriminate|vm_compute; reflexivity]. Qed.
 
+(* F19 separate_circuit on the F6 input [g], one label: the basis (address 11) of the input gate is reachable from the result *)
+Definition f19_call : call := CSeparate 13 [(0, 0)] 1.
+Theorem c16_refuted_F19 : exists a,
+  reachable (fst (run Current f19_call f6_heap)) (snd (run Current f19_call f6_heap)) a /\
+  reachable f6_heap (args_of f19_call) a /\ obj_tag (get f6_heap a) = 2.
+Proof. exists 11. split; [|split; [|reflexivity]]; apply reach_sound; vm_compute; tauto. Qed.
+
+Example c16_ex_F19 :
+  observe Repaired f6_heap f19_call = (false, [0; 0; 0; 0; 0; 0; 0], [0; 0; 0; 0; 0; 0; 0]) /\
+  observe Current f6_heap f19_call = (false, [0; 0; 1; 0; 0; 0; 0], [0; 0; 1; 0; 0; 0; 0]).
+Proof. split; vm_compute; reflexivity. Qed.
+
+(* non-vacuity of c16_fresh_current: partition_problem with observables on a circuit of native instructions, one gate
+   spanning the two partitions; the input is clean, mode Current returns a non-trivial result and shares nothing *)
+Definition hw : heap := [OOp KNative 0 None None; OOp KNative 0 None None; OCirc [0; 1] 0; OPauli [1; 2]].
+Definition cp : call := CPartition 2 [false; true] [(0, 0); (0, 1)] 2 (Some 3).
+Example c16_ex_fresh_current :
+  in_place cp = false /\ clean hw cp = true /\
+  length (reach (fst (run Current cp hw)) (snd (run Current cp hw))) = 17 /\
+  observe Current hw cp = (false, [0; 0; 0; 0; 0; 0; 0], [0; 0; 0; 0; 0; 0; 0]) /\
+  clean f6_heap f6_call = false.
+Proof. repeat split; vm_compute; reflexivity. Qed.
+
+(* non-vacuity of the edit theorems: three non-trivial edits of objects reachable from the F6 result (Repaired model);
+   f6_heap is well formed; the edited value is really there and every old object is unchanged *)
+Definition f6_edits : list (addr * obj) := [(37, ONull); (34, OCirc [] 7); (30, OBasis [] [])].
+Lemma f6_edits_reachable : forall e, In e f6_edits ->
+  reachable (fst (run Repaired f6_call f6_heap)) (snd (run Repaired f6_call f6_heap)) (fst e).
+Proof. intros e [<-|[<-|[<-|[]]]]; apply reach_sound; vm_compute; tauto. Qed.
+
+Lemma f6_wf : wf f6_heap.
+Proof. apply wfb_wf. vm_compute. reflexivity. Qed.
+
+Example c16_ex_edits :
+  wf f6_heap /\
+  get (apply_edits (fst (run Repaired f6_call f6_heap)) f6_edits) 34 = OCirc [] 7 /\
+  (forall a, a < length f6_heap -> get (apply_edits (fst (run Repaired f6_call f6_heap)) f6_edits) a = get f6_heap a) /\
+  (forall a, reachable (apply_edits (fst (run Repaired f6_call f6_heap)) f6_edits) (args_of f6_call) a <->
+             reachable f6_heap (args_of f6_call) a).
+Proof.
+  split; [exact f6_wf|]. split; [vm_compute; reflexivity|]. split.
+  - exact (c16_edits_leave_inputs_repaired f6_heap f6_call eq_refl f6_edits f6_edits_reachable).
+  - apply (c16_later_calls_repaired_partial f6_heap f6_call eq_refl f6_wf).
+    + intros r [<-|[]]. vm_compute. lia.
+    + exact f6_edits_reachable.
+Qed.
+
+(* the completeness certificate holds on the witnesses *)
+Example c16_ex_reach_ok :
+  reach_ok f6_heap (args_of f6_call) = true /\
+  reach_ok (fst (run Current f6_call f6_heap)) (snd (run Current f6_call f6_heap)) = true.
+Proof. split; vm_compute; reflexivity. Qed.
+
 (* in place: the circuit argument is returned and modified, nothing else *)
 Example c16_ex_inplace :
   observe Current f6_heap (CDqi true 13 [0] [2]) = (true, [1; 0; 0; 0; 0; 0; 0], [0; 0; 0; 0; 0; 0; 0]) /\
@@ -157,10 +238,15 @@ Proof. split; vm_compute; reflexivity. Qed.
 
 Print Assumptions c16_frame.
 Print Assumptions c16_inplace_only_arg.
-Print Assumptions c16_fresh.
-Print Assumptions c16_fresh_between_results.
-Print Assumptions c16_edits_leave_inputs.
-Print Assumptions c16_later_calls_partial.
+Print Assumptions c16_fresh_current.
+Print Assumptions c16_fresh_current_disjoint.
+Print Assumptions c16_result_reach_new_repaired.
+Print Assumptions c16_fresh_repaired.
+Print Assumptions c16_edits_confined.
+Print Assumptions c16_refuted_F19.
+Print Assumptions c16_fresh_between_results_repaired.
+Print Assumptions c16_edits_leave_inputs_repaired.
+Print Assumptions c16_later_calls_repaired_partial.
 Print Assumptions c16_confined.
 Print Assumptions c16_results_share_only_arguments.
 Print Assumptions c16_reach_sound.
